@@ -6,6 +6,7 @@ PROP = {
         "bin": "mirrorsim", "pkg": "tm/tmengine/internal/tmmirror", "inject": [("mirrorsim", "tm/tmengine/internal/tmmirror")],
         "tests": [
             {"name": "TestVerifC11ConsumerViews", "quick": 1200, "thorough": 160000, "shards": {"thorough": 16}},
+            {"name": "TestVerifC11ConcurrentCallers", "quick": 1500, "thorough": 96000, "shards": {"thorough": 8}, "salt": 3},
         ],
     }],
 }
